@@ -9,6 +9,7 @@ import (
 	"os"
 	"reflect"
 	"runtime/debug"
+	"sort"
 	"strings"
 	"sync"
 
@@ -114,6 +115,9 @@ func readLines(path, tag string) ([]string, error) {
 		seen[l] = true
 		out = append(out, l)
 	}
+	// TLC's workers print in a schedule-dependent order: sort, so that everything derived from
+	// the position of a case (variant rotation, concretisation seed) is reproducible
+	sort.Strings(out)
 	return out, sc.Err()
 }
 
